@@ -281,3 +281,61 @@ func runSharedHints() {
 		})
 	chk.Sample("shared hints", sharedCase{"shared-hints", "empty", []string{"1d:Code39", "1d:EAN-8"}, 0, 0})
 }
+
+// runZeroValueWriters: QRCodeWriter and DataMatrixWriter are exported empty structs; `var w
+// qrcode.QRCodeWriter`, `new(qrcode.QRCodeWriter)` and `&qrcode.QRCodeWriter{}` are writers as good as
+// the constructors' (the constructors return exactly that). Every call of the history menu gives
+// the same image through each way of making the writer.
+func runZeroValueWriters() {
+	var menu []hcall
+	for _, hint := range []string{"none", "empty", "margin0", "margin3", "margin20", "ecH", "rect"} {
+		for _, sz := range [][2]int{{0, 0}, {157, 31}, {200, 160}} {
+			for c := 0; c < 2; c++ {
+				menu = append(menu, hcall{Content: c, W: sz[0], H: sz[1], Hint: hint})
+			}
+		}
+	}
+	type maker struct {
+		name string
+		mk   func() gozxing.Writer
+	}
+	var qrVar qrcode.QRCodeWriter
+	var dmVar datamatrix.DataMatrixWriter
+	kinds := []struct {
+		hw    hwriter
+		other []maker
+	}{
+		{hwriters[0], []maker{{"new(QRCodeWriter)", func() gozxing.Writer { return new(qrcode.QRCodeWriter) }}, {"&QRCodeWriter{}", func() gozxing.Writer { return &qrcode.QRCodeWriter{} }}, {"var QRCodeWriter", func() gozxing.Writer { return &qrVar }}}},
+		{hwriters[1], []maker{{"new(DataMatrixWriter)", func() gozxing.Writer { return new(datamatrix.DataMatrixWriter) }}, {"&DataMatrixWriter{}", func() gozxing.Writer { return &datamatrix.DataMatrixWriter{} }}, {"var DataMatrixWriter", func() gozxing.Writer { return &dmVar }}}},
+	}
+	chk.Range(fmt.Sprintf("zero-value writers: QRCodeWriter and DataMatrixWriter made by new(T), &T{} and var T x %d calls (7 hint sets x 3 sizes x 2 contents): image == the constructor's writer's image", len(menu)), len(kinds),
+		func(i int) string { return kinds[i].hw.name },
+		func(l *mc.Local, i int) {
+			k := kinds[i]
+			for _, c := range menu {
+				want, wantErr := k.hw.mk().Encode(k.hw.contents[c.Content], k.hw.format, c.W, c.H, hintSet(c.Hint))
+				for _, o := range k.other {
+					var got *gozxing.BitMatrix
+					var gotErr error
+					pm, site := mc.Guard(func() { got, gotErr = o.mk().Encode(k.hw.contents[c.Content], k.hw.format, c.W, c.H, hintSet(c.Hint)) })
+					l.Count("evaluations", 1)
+					cs := hcase{k.hw.name + " via " + o.name, []hcall{c}}
+					if pm != "" {
+						chk.Violation("C14/panic/"+site+"/zero-value-writer", fmt.Sprintf("%s: panic %s on %+v", o.name, pm, c), cs)
+						continue
+					}
+					if (gotErr != nil) != (wantErr != nil) || !sameMatrix(got, want) {
+						desc := "differs"
+						if got != nil && want != nil {
+							desc = fmt.Sprintf("is %dx%d, the constructor's writer gives %dx%d", got.GetWidth(), got.GetHeight(), want.GetWidth(), want.GetHeight())
+						}
+						chk.Violation("C14/"+k.hw.name+"/zero-value-writer", fmt.Sprintf("%s, call %+v: the image %s (error %v / %v)", o.name, c, desc, gotErr != nil, wantErr != nil), cs)
+						continue
+					}
+					if got != nil {
+						l.Distinct("nontrivial", fmt.Sprint("zero", o.name, c))
+					}
+				}
+			}
+		})
+}
